@@ -12,40 +12,6 @@ From CGV Require Import Base.PyBase Base.PyVal Base.NxGraph Base.PyGen Gen.Reade
 Import ListNotations.
 Open Scope Z_scope.
 
-(** ** _find_next_character from a position *)
-Lemma py_for_find_off : forall (F : unit -> Z * pystr -> res (loopres Z unit)) chars off,
-  (forall st idx tok, F st (idx, tok) = if str_in tok chars then Ok (RReturn (idx + off)%Z) else Ok (RNext tt)) ->
-  forall (s : pystr) (k : nat),
-  py_for (combine (map (fun i => (0 + Z.of_nat i)%Z) (seq k (length (map (fun c_ => [c_]) s)))) (map (fun c_ => [c_]) s)) tt F
-  = Ok (if (find_idx s chars <? length s)%nat then RReturn (Z.of_nat (k + find_idx s chars) + off) else RNext tt).
-Proof.
-  intros F chars off HF. induction s as [|c r IH]; intros k.
-  - reflexivity.
-  - cbn [map length seq combine py_for find_idx]. rewrite HF.
-    destruct (str_in [c] chars) eqn:E.
-    + cbn. rewrite Nat.add_0_r. reflexivity.
-    + cbn [bind ret]. rewrite IH. f_equal.
-      change (length (c :: r)) with (Datatypes.S (length r)).
-      destruct (find_idx r chars <? length r)%nat eqn:L.
-      * assert (H : (Datatypes.S (find_idx r chars) <? Datatypes.S (length r))%nat = true)
-          by (apply Nat.ltb_lt; apply Nat.ltb_lt in L; lia).
-        rewrite H. f_equal. lia.
-      * assert (H : (Datatypes.S (find_idx r chars) <? Datatypes.S (length r))%nat = false)
-          by (apply Nat.ltb_ge; apply Nat.ltb_ge in L; lia).
-        rewrite H. reflexivity.
-Qed.
-Lemma fnc_from_spec s chars k : (k <= length s)%nat -> fnc_from s chars k = Ok (k + find_idx (skipn k s) chars)%nat.
-Proof.
-  intros Hk. unfold fnc_from, find_next_character, unwrap_return, py_slice_from_z, enumerate_from.
-  cbn [bind ret].
-  assert (E0 : (Z.of_nat k <? 0) = false) by (apply Z.ltb_ge; lia). rewrite E0. rewrite Nat2Z.id.
-  cbn [bind ret].
-  rewrite (py_for_find_off _ chars (Z.of_nat k)) by (intros st idx tok; reflexivity). cbn [bind ret].
-  pose proof (find_idx_le (skipn k s) chars) as Hle. rewrite skipn_length in *.
-  destruct (find_idx (skipn k s) chars <? length s - k)%nat eqn:L; cbn [bind ret].
-  - f_equal. lia.
-  - apply Nat.ltb_ge in L. f_equal. lia.
-Qed.
 
 (** ** a node without ring markers, followed by an arbitrary stopper *)
 Definition stail (m : option (list nat)) (b : option sym) : pystr := mult_str m ++ osym_str b.
@@ -104,13 +70,6 @@ Proof.
 Qed.
 
 (** ** what one iteration leaves in `attributes` and in the recipe table *)
-Lemma close_branch_attr rest st st1 : close_branch rest st = Ok st1 -> s_attributes st1 = s_attributes st.
-Proof.
-  unfold close_branch. destruct (rev (s_branch_anchor st)) as [|a ra]; [discriminate|].
-  destruct (fnc0 rest fnc_eon_a) as [eon_a|]; cbn [bind]; [|discriminate].
-  match goal with |- (bind ?m _ = _ -> _) => destruct m as [[[[[[g cu] pn] ba] rc] pb]|] end; cbn [bind]; [|discriminate].
-  intros H. injection H as <-. reflexivity.
-Qed.
 Lemma node_step_attr fo st pc nm rest st1 : node_step fo st pc nm rest = Ok st1 ->
   exists a, parse_graph_base_node fo nm = Ok a /\ s_attributes st1 = Some a.
 Proof.
@@ -122,11 +81,7 @@ Proof.
   destruct (parse_graph_base_node fo nm) as [a|]; cbn [bind]; [|discriminate].
   match goal with |- (bind ?m _ = _ -> _) => destruct m as [rc'|] end; cbn [bind]; [|discriminate].
   destruct (add_nodes _ _ _ _ _ _ _ _) as [[[[g cu] pn] pb]|]; cbn [bind]; [|discriminate].
-  destruct (fnc0 rest fnc_next_open) as [io|]; cbn [bind]; [|discriminate].
-  destruct (fnc0 rest fnc_next_close) as [ic|]; cbn [bind]; [|discriminate].
-  intros H. exists a. split; [reflexivity|]. destruct (Nat.ltb ic io).
-  - apply close_branch_attr in H. exact H.
-  - injection H as <-. reflexivity.
+  intros H. exists a. split; [reflexivity|]. apply close_all_attr in H. exact H.
 Qed.
 (** a node that does not close a branch: the recipe table afterwards *)
 Lemma node_step_recipes fo st pc nm rest st1 io ic : node_step fo st pc nm rest = Ok st1 ->
@@ -135,7 +90,7 @@ Lemma node_step_recipes fo st pc nm rest st1 io ic : node_step fo st pc nm rest 
     /\ s_branch_anchor st1 = ba /\ s_branching st1 = br
     /\ s_recipes st1 = (if br then match rev ba with k :: _ => rec_append k (n, a, s_pbo st) rc | [] => rc end else rc).
 Proof.
-  intros H Eio Eic Elt. rewrite node_step_eq in H. rewrite Eio, Eic in H.
+  intros H Eio Eic Elt. rewrite node_step_eq in H.
   destruct (opened st pc) as [[[br ba] rc]|]; cbn [bind] in H; [|discriminate].
   destruct (ring_scan (s_current st) rest 0 (clean_st (s_cycle st) [])) as [[rs rdx]|]; cbn [bind] in H; [|discriminate].
   destruct (bond_expr rest rdx) as [bo|]; cbn [bind] in H; [|discriminate].
@@ -145,9 +100,9 @@ Proof.
   destruct br.
   - destruct (rev ba) as [|k0 r0]; cbn [bind] in H; [discriminate|].
     destruct (add_nodes _ _ _ _ _ _ _ _) as [[[[g cu] pn] pb]|]; cbn [bind] in H; [|discriminate].
-    rewrite Elt in H. injection H as <-. repeat split.
+    rewrite (close_all_stop _ _ io ic Eio Eic Elt) in H. injection H as <-. repeat split.
   - cbn [bind] in H. destruct (add_nodes _ _ _ _ _ _ _ _) as [[[[g cu] pn] pb]|]; cbn [bind] in H; [|discriminate].
-    rewrite Elt in H. injection H as <-. repeat split.
+    rewrite (close_all_stop _ _ io ic Eio Eic Elt) in H. injection H as <-. repeat split.
 Qed.
 
 (** ** closing a branch that carries a multiplier (lines 266-332) *)
@@ -187,16 +142,16 @@ Definition mult_closed (st : rstate) (g : graph) (cur : Z) (prev : option Z) (ba
 Lemma close_mult P ms ds after K st anchor n0 a0 o0 es :
   Forall inner P -> digits_ok ds = true -> cont K ->
   s_branch_anchor st = [anchor] -> s_recipes st = [(anchor, (n0, a0, o0) :: es)] ->
-  close_branch (P ++ ")"%char :: osym_str ms ++ "|"%char :: digits_str ds ++ after_tail after K) st
+  close_branch (P ++ ")"%char :: osym_str ms ++ "|"%char :: digits_str ds ++ after_tail after K) 0 st
   = ('(g, cur, _, base) <- exp_times (digits_nat ds - 1)
                               [(anchor, (n0, a0, match ms with Some s => Some (sym_ord s) | None => o0 end) :: es)]
                               (s_g st) (s_current st) anchor (Some anchor) ;;
      prev <- of_option base EUnbound ;;
-     Ok (mult_closed st g cur prev base after)).
+     Ok (mult_closed st g cur prev base after, Datatypes.S (length P))).
 Proof.
   intros HP Hd HK Hba Hrc. destruct (digits_ok_all ds Hd) as [Hall Hne].
   destruct (after_tail_head after K HK) as (h & tl & ET & Hh).
-  unfold close_branch. rewrite Hba. cbn [rev app].
+  unfold close_branch. rewrite Hba. cbn [rev app]. change (fnc_from ?r ?c 0) with (fnc0 r c).
   rewrite fnc0_spec, (find_idx_inner _ fnc_eon_a HP incl_eon_a). cbn [find_idx].
   change (str_in [")"%char] fnc_eon_a) with true. cbv iota. rewrite Nat.add_0_r. cbn [bind].
   rewrite !nth_error_plus.
@@ -214,8 +169,9 @@ Proof.
   assert (HN : Z.to_nat (Z.of_nat (digits_nat ds) - 1) = (digits_nat ds - 1)%nat) by lia.
   destruct ms as [s|]; cbn [osym_str app nth_error].
   - (* ")" sym "|" digits *)
-    assert (E1 : ch_eq (Some (sym_char s)) "|"%char = false) by (destruct s; reflexivity). rewrite E1.
-    cbn [ch_eq orb of_option bind]. change (Ascii.eqb "|"%char "|"%char) with true. cbv iota. cbn [of_option bind].
+    assert (E1 : Ascii.eqb (sym_char s) "|"%char = false) by (destruct s; reflexivity).
+    cbn [ch_eq]. rewrite E1. change (Ascii.eqb "|"%char "|"%char) with true. rewrite sym_mem.
+    cbn [orb andb of_option bind]. rewrite E1. cbn [negb].
     rewrite sym_lookup. cbn [bind]. rewrite Hrc. cbn [rec_get]. rewrite oz_eqb_refl. cbn [rec_set]. rewrite oz_eqb_refl.
     cbn [bind].
     rewrite fnc_from_spec by (rewrite app_length; cbn [length]; lia).
@@ -229,26 +185,55 @@ Proof.
     destruct base as [b|]; cbn [of_option bind]; [|reflexivity].
     replace (length P + 2 + Datatypes.S (length ds))%nat with (length P + (3 + length (digits_str ds)))%nat by (unfold digits_str; rewrite map_length; lia).
     rewrite nth_error_plus. cbn [plus nth_error]. rewrite nth_error_app2 by lia. rewrite Nat.sub_diag.
-    fold D. fold T. rewrite Hcb. reflexivity.
+    fold D. fold T. rewrite Hcb. cbn [bind]. rewrite Nat.add_1_r. reflexivity.
   - (* ")" "|" digits *)
-    cbn [ch_eq]. change (Ascii.eqb "|"%char "|"%char) with true. cbn [orb].
-    destruct ds as [|d0 dr]; [contradiction|]. pose proof Hall as Hall'. cbn [forallb] in Hall'. apply andb_prop in Hall' as [Hd0 _].
-    apply Nat.ltb_lt in Hd0. unfold D at 1. cbn [digits_str map app nth_error of_option bind].
-    rewrite (proj2 (Ascii.eqb_neq _ _) (nobar_digit d0 Hd0)). cbn [bind].
-    fold (digits_str dr). change (digit_char d0 :: digits_str dr) with (digits_str (d0 :: dr)). fold D.
+    cbn [ch_eq]. change (Ascii.eqb "|"%char "|"%char) with true. cbn [orb of_option bind].
+    change (Ascii.eqb "|"%char "|"%char) with true. cbn [negb bind].
     rewrite fnc_from_spec by (rewrite app_length; cbn [length]; lia).
     rewrite skipn_plus. cbn [skipn]. rewrite Hfi. cbn [bind].
     unfold py_slice. rewrite skipn_plus. cbn [skipn].
-    replace (length P + 1 + Datatypes.S (length (d0 :: dr)) - (length P + 2))%nat with (length D) by lia.
+    replace (length P + 1 + Datatypes.S (length ds) - (length P + 2))%nat with (length D) by lia.
     rewrite firstn_app, Nat.sub_diag, firstn_all. cbn [firstn]. rewrite app_nil_r.
     unfold D. rewrite py_int_full_digits by assumption. cbn [bind]. rewrite HN. rewrite Hrc. cbn [length skipn].
     destruct (exp_times _ _ _ _ _ _) as [[[[g cur] pn] base]|]; cbn [bind]; [|reflexivity].
     destruct base as [b|]; cbn [of_option bind]; [|reflexivity].
     match goal with |- context [nth_error (P ++ ?R) ?n] =>
-      replace n with (length P + (2 + length (digits_str (d0 :: dr))))%nat
-        by (unfold digits_str; cbn [length map]; rewrite map_length; lia) end.
+      replace n with (length P + (2 + length (digits_str ds)))%nat
+        by (unfold digits_str; rewrite map_length; lia) end.
     rewrite nth_error_plus. cbn [plus nth_error]. rewrite nth_error_app2 by lia. rewrite Nat.sub_diag.
-    fold D. fold T. rewrite Hcb. reflexivity.
+    fold D. fold T. rewrite Hcb. cbn [bind]. rewrite Nat.add_1_r. reflexivity.
+Qed.
+
+(** behind the multiplier nothing closes before the next node *)
+Lemma mult_tail_no_close ms ds after K : digits_ok ds = true -> cont K ->
+  Nat.ltb (find_idx (osym_str ms ++ "|"%char :: digits_str ds ++ after_tail after K) fnc_next_close)
+          (find_idx (osym_str ms ++ "|"%char :: digits_str ds ++ after_tail after K) fnc_next_open) = false.
+Proof.
+  intros Hd HK.
+  assert (HQ : Forall inner (osym_str ms ++ "|"%char :: digits_str ds ++ osym_str after)).
+  { apply Forall_app; split; [apply inner_osym|]. constructor; [reflexivity|].
+    apply Forall_app; split; [apply inner_digits; now apply digits_ok_all|apply inner_osym]. }
+  assert (E : osym_str ms ++ "|"%char :: digits_str ds ++ after_tail after K
+            = (osym_str ms ++ "|"%char :: digits_str ds ++ osym_str after) ++ K).
+  { unfold after_tail. rewrite <- !app_assoc. cbn [app]. now rewrite <- !app_assoc. }
+  rewrite E, (find_idx_inner _ fnc_next_open HQ incl_open), (find_idx_inner _ fnc_next_close HQ incl_close).
+  pose proof (cont_no_close None K HK) as H. cbn [osym_str app] in H. apply Nat.ltb_ge. apply Nat.ltb_ge in H. lia.
+Qed.
+Lemma close_all_mult P ms ds after K st anchor n0 a0 o0 es :
+  Forall inner P -> digits_ok ds = true -> cont K ->
+  s_branch_anchor st = [anchor] -> s_recipes st = [(anchor, (n0, a0, o0) :: es)] ->
+  close_all (P ++ ")"%char :: osym_str ms ++ "|"%char :: digits_str ds ++ after_tail after K) st
+  = ('(g, cur, _, base) <- exp_times (digits_nat ds - 1)
+                              [(anchor, (n0, a0, match ms with Some s => Some (sym_ord s) | None => o0 end) :: es)]
+                              (s_g st) (s_current st) anchor (Some anchor) ;;
+     prev <- of_option base EUnbound ;;
+     Ok (mult_closed st g cur prev base after)).
+Proof.
+  intros HP Hd HK Hba Hrc. rewrite close_all_first by assumption.
+  rewrite (close_mult P ms ds after K st anchor n0 a0 o0 es HP Hd HK Hba Hrc).
+  destruct (exp_times _ _ _ _ _ _) as [[[[g cur] pn] base]|]; cbn [bind]; [|reflexivity].
+  destruct base as [b|]; cbn [of_option bind]; [|reflexivity].
+  apply close_loop_stop_after. now apply mult_tail_no_close.
 Qed.
 
 (** ** the expansion loop with a single recipe *)
@@ -417,11 +402,8 @@ Proof.
   rewrite (add_nodes_copies (mult_val m) a 1 (s_g st) (s_current st) (Some p) (Some pend) pend
              (name_ok_ahas fo nm a Hn Ea)) by (intros _ ? _; reflexivity).
   destruct (m_copies (mult_val m) a (s_g st) (s_current st) (Some p) pend) as [[g2 nx] pv] eqn:Ecp. cbn [bind].
-  destruct (look_simple m None ")"%char (osym_str ms ++ "|"%char :: digits_str ds ++ after_tail after K) Hs)
-    as (io & ic & Eio & Eic & Hlt & _).
-  rewrite Eio. cbn [bind]. rewrite Eic. cbn [bind]. rewrite (Hlt eq_refl).
-  match goal with |- context [close_branch _ ?S] =>
-    rewrite (close_mult (stail m None) ms ds after K S (Some ak) n0 a0 o0 (es ++ [(Z.of_nat (mult_val m), a, Some pend)])
+  match goal with |- context [close_all _ ?S] =>
+    rewrite (close_all_mult (stail m None) ms ds after K S (Some ak) n0 a0 o0 (es ++ [(Z.of_nat (mult_val m), a, Some pend)])
                (stail_inner m None Hs) Hd HK eq_refl eq_refl) end.
   cbn [s_g s_current s_base_anchor].
   rewrite exp_times_single.
